@@ -239,6 +239,21 @@ fn conn_search() {
             }
         }
         let all: Vec<u8> = wire.get_ref().clone();
+        // the same frames through a stream that accepts only a few bytes per write call (a socket with a full buffer): what arrives
+        // must still be the whole encoding
+        for cap in [1usize, 7, 256] {
+            let (tx, mut rx) = tokio::io::duplex(cap);
+            let collector = tokio::spawn(async move { use tokio::io::AsyncReadExt; let mut v = Vec::new(); let _ = rx.read_to_end(&mut v).await; v });
+            {
+                let mut w = Connection::new(tx);
+                for f in frames() { w.write_frame(&f).await.unwrap(); }
+            }
+            let got = collector.await.unwrap();
+            if got != all {
+                let at = got.iter().zip(all.iter()).position(|(a, b)| a != b).unwrap_or(got.len().min(all.len()));
+                report("throttled-write", &all[..all.len().min(64)], 0, format!("through a stream that takes at most {} bytes per write: {} bytes arrived, first difference at byte {}", cap, got.len(), at), &format!("the {} bytes of the encodings", all.len()));
+            }
+        }
         // each encoding parses back (writer vs independent encoder)
         for (f, e) in frames().into_iter().zip(encs.iter()) {
             let mut x = Vec::new();
@@ -1046,6 +1061,8 @@ mod store {
         let mut alt: BTreeMap<String, Option<String>> = BTreeMap::new();
         let hist = ops.join("; ");
         let (mut had_merge, mut had_reopen, mut had_fault) = (false, false, false);
+        // stray files put into the directory by the history (C14: the store must never adopt, extend or truncate a file it did not create)
+        let mut strays: Vec<String> = Vec::new();
         // a panic inside a store operation: reported with the history that led to it
         let hist2 = hist.clone();
         let cur_op = std::sync::Arc::new(std::sync::Mutex::new(String::new()));
@@ -1067,6 +1084,8 @@ mod store {
                     if n.ends_with(".bitcask.data") { let sz = e.metadata().unwrap().len(); if sz > max + max_entry {
                         report(label, "C14", &hist, format!("before op {}: {} holds {} bytes (max_file_size {}, largest entry {} bytes); files {:?}", i, n, sz, max, max_entry, files(dir.path())), &format!("at most {} bytes: a file is closed as soon as it exceeds the maximum", max + max_entry)); } } }
             }
+            if crate::want("C14") { for sname in strays.iter() { if let Ok(md) = std::fs::metadata(dir.path().join(sname)) { if md.len() != 0 {
+                report(label, "C14", &hist, format!("before op {}: the stray file {} (created empty by the history, not by the store) now holds {} bytes; files {:?}", i, sname, md.len(), files(dir.path())), "untouched: the store creates its files exclusively and fails when the name exists"); } } } }
             *cur_op.lock().unwrap() = format!("op {} `{}`", i, op);
             // which properties a wrong read contradicts at this point of the history
             let rp = format!("C01{}{}{}", if had_reopen { ",C02" } else { "" }, if had_merge { ",C05,C12" } else { "" }, if had_fault { ",C20" } else { "" });
@@ -1127,14 +1146,14 @@ mod store {
                     let without = dump(copy.path()); let with = dump(dir.path());
                     if had_hints && !had_fault && with != without { report(label, "C12", &hist, format!("op {}: opened WITH hint files: {:?}; a copy opened WITHOUT them: {:?}", i, with.as_ref().map(|t| (&t.0, &t.1)), without.as_ref().map(|t| (&t.0, &t.1))), "the same key directory, statistics and answers"); }
                     match mk(dir.path()).open() { Ok(k) => kv = Some(k), Err(e) => report(label, "C02", &hist, format!("op {} reopen failed: {}", i, e), "the directory can be opened") } }
-                "precreate-data" => { std::fs::File::create(dir.path().join(format!("{}.bitcask.data", p[1]))).unwrap(); }
-                "precreate-hint" => { std::fs::File::create(dir.path().join(format!("{}.bitcask.hint", p[1]))).unwrap(); }
-                "remove-data" => { let _ = std::fs::remove_file(dir.path().join(format!("{}.bitcask.data", p[1]))); }
+                "precreate-data" => { std::fs::File::create(dir.path().join(format!("{}.bitcask.data", p[1]))).unwrap(); strays.push(format!("{}.bitcask.data", p[1])); }
+                "precreate-hint" => { std::fs::File::create(dir.path().join(format!("{}.bitcask.hint", p[1]))).unwrap(); strays.push(format!("{}.bitcask.hint", p[1])); }
+                "remove-data" => { let _ = std::fs::remove_file(dir.path().join(format!("{}.bitcask.data", p[1]))); strays.retain(|x| x != &format!("{}.bitcask.data", p[1])); }
                 // read-path faults (C20): a data file damaged behind the store's back; a get that needs it must FAIL, never answer
                 "truncate-data" => { if let Ok(f) = std::fs::OpenOptions::new().write(true).open(dir.path().join(format!("{}.bitcask.data", p[1]))) { let _ = f.set_len(p[2].parse().unwrap()); } had_fault = true; }
                 "geterr" if !crate::want("C20") => {}
                 "geterr" => { had_fault = true; match h.get(b(p[1])) { Err(_) => {}, Ok(v) => report(label, "C20", &hist, format!("op {} `get {}` returned Ok({:?}) although the file holding the entry is gone / cut; files {:?}", i, p[1], v.map(|x| String::from_utf8_lossy(&x).to_string()), files(dir.path())), "an error") } }
-                "remove-hint" => { let _ = std::fs::remove_file(dir.path().join(format!("{}.bitcask.hint", p[1]))); }
+                "remove-hint" => { let _ = std::fs::remove_file(dir.path().join(format!("{}.bitcask.hint", p[1]))); strays.retain(|x| x != &format!("{}.bitcask.hint", p[1])); }
                 "checkall" => { for (k, v) in model.iter() { if alt.contains_key(k) { continue; } let got = h.get(b(k)).map(|o| o.map(|v| String::from_utf8_lossy(&v).to_string()));
                     match got { Ok(Some(g)) if &g == v => {}, _ if !crate::want(rp) => {}, other => report(label, rp, &hist, format!("op {} checkall: key {} reads {:?}; files {:?}", i, k, other, files(dir.path())), v) } } }
                 "checkstats" if !crate::want("C19") => {}
@@ -1204,6 +1223,12 @@ mod store {
         }
         // small and large values of the same key alternating (a layer that treats values by size must not remember the wrong one)
         {
+            // entries around the 8 KiB capacity of the write buffer (whole entry above it, value below it), read back at once
+            for n in [8100usize, 8150, 8160, 8175, 8191, 8192, 8200, 16383, 16384] {
+                let hs = format!("set edge {v}; get edge; set e2 1; get edge; get e2; del edge; get edge; set edge {v}; get edge; merge; get edge; reopen; get edge", v = "e".repeat(n));
+                let v: Vec<&str> = hs.split(';').map(|s| s.trim()).collect();
+                run_history(1 << 20, "all", &v, "history");
+            }
             let big = "y".repeat(3000); let big2 = "z".repeat(70000);
             let hs = format!("set a 1; set a {b}; get a; set b {b}; set b 2; get b; del a; get a; set a {b}; get a; set a {c}; get a; set a 3; get a; checkall; reopen; checkall; get a; get b; merge; checkall", b = big, c = big2);
             let v: Vec<&str> = hs.split(';').map(|s| s.trim()).collect();
